@@ -6,7 +6,7 @@ CLAIM = ("OnlineAverage / OnlineVariance / RingOfEigenVector: (a) inductive step
          "fill level, replacement index, window contents) one update() re-establishes the representation invariant and the reported "
          "average / availability / unbiased variance equal those of the logical window, and reset() returns to the empty valid state, "
          "which covers histories of any length; (b) bounded histories with a reset/clear at every position, symbolic samples")
-BOUNDS = dict(quick="window W in {1,2,3,5} (plus W = 64 for the signed-overflow obligations of the variance step), precision in {0.1,1e-3} (multiplier check: all six precisions), histories of 2W+2 updates with one reset at any position; ring capacity 1..5, 2cap+2 appends with one clear at any position; |value|/precision <= 1e8",
+BOUNDS = dict(quick="window W in {1,2,3,5} with arbitrary windows; W = 64 with windows alternating between two symbolic values (all obligations) and with arbitrary windows (overflow obligations only, mostly unknown), precision in {0.1,1e-3} (multiplier check: all six precisions), histories of 2W+2 updates with one reset at any position; ring capacity 1..5, 2cap+2 appends with one clear at any position; |value|/precision <= 1e8",
               thorough="W in {1,2,3,4,5,8,16}, all six precisions; ring capacity 1..16")
 ASSUMPTIONS = ["exact domain: doubles read as reals, long long arithmetic as mathematical integers (the nsw flag makes overflow UB; |value|/precision <= 1e8 keeps sums in range)",
                "inductive pre-state installed through member access (index_, data_, sumOfData_, squaredData_, sumOfSquaredData_)"]
@@ -20,18 +20,24 @@ def entries(tier):
         for prec in ([0.1, 1e-3] if tier == "quick" else PRECS):
             if W <= 5:
                 es.append(Entry("c16_avg_history", "real", "int", dict(W=W, n=2 * W + 2, precision=prec)))
-            es.append(Entry("c16_avg_step", "real", "int", dict(W=W, precision=prec, pin=-1), ub_checks=True))
+            es.append(Entry("c16_avg_step", "real", "int", dict(W=W, precision=prec, pin=-1, family=0), ub_checks=True))
             if W >= 2:
                 if W <= 5:
                     es.append(Entry("c16_var_history", "real", "int", dict(W=W, n=2 * W + 1, precision=prec)))
-                es.append(Entry("c16_var_step", "real", "int", dict(W=W, precision=prec, pin=-1), ub_checks=True))
+                es.append(Entry("c16_var_step", "real", "int", dict(W=W, precision=prec, pin=-1, family=0), ub_checks=True))
     # the largest advertised window: 64-bit accumulators must not overflow for |value|/precision <= 1e8
     for prec in ([1.0] if tier == "quick" else [1.0, 1e-6]):
       for pin in ((63,) if tier == "quick" else (0, 63)):
-        es.append(Entry("c16_var_step", "real", "int", dict(W=64, precision=prec, pin=pin), ub_checks=True,
+        es.append(Entry("c16_var_step", "real", "int", dict(W=64, precision=prec, pin=pin, family=0), ub_checks=True,
                         budget=dict(paths=4000, time=600, concretize=200), kinds=("ub", "abort", "mem"),
                         cap=(3 if tier == "quick" else 60), strict_first=False,
                         note="W = 64: only the overflow (UB) obligations are discharged at this size"))
+    # largest window, two-valued windows: every obligation (overflow included) over 3 symbolic integers
+    for prec in ([1.0, 1e-3] if tier == "quick" else PRECS):
+        for pin in (0, 63):
+            es.append(Entry("c16_var_step", "real", "int", dict(W=64, precision=prec, pin=pin, family=2), ub_checks=True,
+                            budget=dict(paths=4000, time=600, concretize=200),
+                            note="W = 64 with windows alternating between two symbolic values"))
     for prec in PRECS:
         es.append(Entry("c16_var_multiplier", "real", "int", dict(precision=prec)))
     for cap in ([1, 2, 3, 4, 5] if tier == "quick" else list(range(1, 17))):
